@@ -343,19 +343,33 @@ func c11Case(run *evid.Run, i int, j *Journal) {
 			mc, havem := manifests[r]
 			if havem && prog == nil && rng.Intn(3) == 0 {
 				via = "NewFromMultihash"
+			} else if len(src.Heads) == 1 && prog == nil && rng.Intn(3) == 0 {
+				via = "NewFromEntryHash"
 			}
 			run.Count("via_"+via, 1)
 			var viaErr error
 			var viaLen *int // "no limit" is spelled either by leaving the length out or by the explicit -1
 			if rng.Intn(2) == 0 {
-				m := -1
+				m := []int{-1, -1, -2, -100}[rng.Intn(4)] // any negative length means "everything"
 				viaLen = &m
+			}
+			if via == "FetchAll" && rng.Intn(4) == 0 {
+				m := []int{-1, -2, -100}[rng.Intn(3)]
+				fo.Length = &m
 			}
 			call := func() {
 				defer close(returned)
 				defer callerCancel()
 				if via == "FetchAll" {
 					result = entry.FetchAll(callerCtx, cs.API(), cidsOf(src.Heads), fo)
+				} else if via == "NewFromEntryHash" {
+					var ll *ipfslog.IPFSLog
+					hc, _ := cid.Decode(src.Heads[0])
+					ll, viaErr = ipfslog.NewFromEntryHash(callerCtx, cs.API(), x.W.Idents[0], hc, x.W.LogOpts(x.W.LogID),
+						&ipfslog.FetchOptions{Concurrency: p.Conc, Timeout: fo.Timeout, ShouldExclude: fo.ShouldExclude, Length: viaLen})
+					if ll != nil {
+						result = ll.GetEntries().Slice()
+					}
 				} else {
 					var ll *ipfslog.IPFSLog
 					ll, viaErr = ipfslog.NewFromMultihash(callerCtx, cs.API(), x.W.Idents[0], mc, x.W.LogOpts(x.W.LogID),
